@@ -16,7 +16,7 @@ pub const TABLE: &[Entry] = &[
     Entry { repr: "^", ctor: "make_bin", apply_src: "pow", unary_src: "", prio: Some(6), comm: Some(false) },
     Entry { repr: "+", ctor: "make_bin_unary", apply_src: "add", unary_src: "|x| x", prio: Some(3), comm: Some(true) },
     Entry { repr: "-", ctor: "make_bin_unary", apply_src: "sub", unary_src: "minus", prio: Some(3), comm: Some(false) },
-    Entry { repr: "cross", ctor: "make_bin", apply_src: "cross", unary_src: "", prio: Some(4), comm: Some(true) },
+    Entry { repr: "cross", ctor: "make_bin", apply_src: "cross", unary_src: "", prio: Some(4), comm: Some(false) },
     Entry { repr: "dot", ctor: "make_bin", apply_src: "dot", unary_src: "", prio: Some(4), comm: Some(true) },
     Entry { repr: "*", ctor: "make_bin", apply_src: "mul", unary_src: "", prio: Some(4), comm: Some(true) },
     Entry { repr: "/", ctor: "make_bin", apply_src: "|a, b| match b { Val::Int(x) if x == I::zero() => { Val::Error(ExError::new(\"int division by zero\")) } _ => div(a, b), }", unary_src: "", prio: Some(5), comm: Some(false) },
@@ -29,12 +29,12 @@ pub const TABLE: &[Entry] = &[
     Entry { repr: "<<", ctor: "make_bin", apply_src: "left_shift", unary_src: "", prio: Some(2), comm: Some(false) },
     Entry { repr: "&&", ctor: "make_bin", apply_src: "and", unary_src: "", prio: Some(2), comm: Some(true) },
     Entry { repr: "||", ctor: "make_bin", apply_src: "or", unary_src: "", prio: Some(2), comm: Some(true) },
-    Entry { repr: "==", ctor: "make_bin", apply_src: "|a, b| Val::Bool(a == b)", unary_src: "", prio: Some(1), comm: Some(true) },
+    Entry { repr: "==", ctor: "make_bin", apply_src: "|a, b| Val::Bool(a == b)", unary_src: "", prio: Some(1), comm: Some(false) },
     Entry { repr: ">=", ctor: "make_bin", apply_src: "|a, b| Val::Bool(a >= b)", unary_src: "", prio: Some(1), comm: Some(false) },
     Entry { repr: ">", ctor: "make_bin", apply_src: "|a, b| Val::Bool(a > b)", unary_src: "", prio: Some(1), comm: Some(false) },
     Entry { repr: "<=", ctor: "make_bin", apply_src: "|a, b| Val::Bool(a <= b)", unary_src: "", prio: Some(1), comm: Some(false) },
     Entry { repr: "<", ctor: "make_bin", apply_src: "|a, b| Val::Bool(a < b)", unary_src: "", prio: Some(1), comm: Some(false) },
-    Entry { repr: "!=", ctor: "make_bin", apply_src: "|a, b| Val::Bool(a != b)", unary_src: "", prio: Some(1), comm: Some(true) },
+    Entry { repr: "!=", ctor: "make_bin", apply_src: "|a, b| Val::Bool(a != b)", unary_src: "", prio: Some(1), comm: Some(false) },
     Entry { repr: "if", ctor: "make_bin", apply_src: "|v, cond| { let condition = match cond.to_bool() { Ok(b) => b, Err(e) => return Val::Error(e), }; if condition { v } else { Val::None } }", unary_src: "", prio: Some(0), comm: Some(false) },
     Entry { repr: "else", ctor: "make_bin", apply_src: "|res_of_if, v| match res_of_if { Val::None => v, _ => res_of_if, }", unary_src: "", prio: Some(0), comm: Some(false) },
     Entry { repr: "min", ctor: "make_bin", apply_src: "|x, y| min(x, y)", unary_src: "", prio: Some(0), comm: Some(false) },
